@@ -174,8 +174,11 @@ def run_gsa(ctx, d):
     def impl():
         sampler, est = gsa_objects(d)
         cls = SobolAttributionMethod if d["method"] == "sobol" else HsicAttributionMethod
+        kw = {}
+        if d["method"] == "hsic" and d.get("ebs"):
+            kw["estimator_batch_size"] = int(d["ebs"])     # memory-saving option: grid cells processed in several batches
         ex = cls(model, grid_size=g, nb_design=nd, sampler=sampler, estimator=est, perturbation_function=pf,
-                 batch_size=d["bs"])
+                 batch_size=d["bs"], **kw)
         holder["ex"] = ex
         return ex(x, y).numpy()
 
@@ -482,7 +485,8 @@ def gen_cases(ctx):
                       "binary": True if est == "BinaryEstimator" else bool(rng.random() < 0.3),
                       "pf": "inpainting" if robust else pick(["blurring", "amplitude"]),
                       "shape": [h, w_, c], "g": g, "nd": 128 if robust else pick([16, 32]), "rect": list(rect), "region": name,
-                      "bias": int(rng.integers(1, 6)), "bs": 256, "argmax": robust, "case_seed": seed()})
+                      "bias": int(rng.integers(1, 6)), "bs": 256, "argmax": robust,
+                      "ebs": (None if rng.random() < 0.4 else int(rng.integers(1, g * g))), "case_seed": seed()})
     # HSIC degenerate stream: the score is exactly zero on at least half of the designs
     for _ in range(2 * k):
         h, w_ = pick(SHAPES[:2])
